@@ -2,6 +2,7 @@ package c17
 
 import (
 	"bytes"
+	"crypto/sha256"
 	"encoding/binary"
 	"encoding/hex"
 	"encoding/json"
@@ -47,6 +48,25 @@ func mkViol(sig, detail string, c *codec, input []byte, extra map[string]any) vi
 
 func identSig(c *codec) string { return "identity-not-from-content:" + c.typ + ":" + c.entry }
 
+// identityViolSig names an identity violation. When the evidence shows the
+// mechanism - the reported hash is the SHA-256 of a prefix of the *received*
+// bytes, or the reported size is the received length - the signature names
+// that mechanism (one root cause, whichever entry point shows it); otherwise
+// it names the type and the entry point.
+func identityViolSig(typ, entry string, input []byte, reported, canonical identity) string {
+	if reported.hash != canonical.hash && len(reported.hash) == 64 {
+		for k := 1; k <= len(input); k++ {
+			h := sha256.Sum256(input[:k])
+			if util.Uint256(h).StringLE() == reported.hash {
+				return "identity-from-received-bytes:" + typ
+			}
+		}
+	} else if reported.hash == canonical.hash && reported.subhash == canonical.subhash && reported.size != canonical.size && reported.size == len(input) {
+		return "identity-from-received-bytes:" + typ
+	}
+	return "identity-not-from-content:" + typ + ":" + entry
+}
+
 // sn is the codec name used in signatures: the "+sr" variants differ only in
 // a context flag, not in the code under test.
 func sn(c *codec) string { return strings.TrimSuffix(c.name, "+sr") }
@@ -57,8 +77,13 @@ func decodeErrSig(c *codec, clause string, err string) string {
 	if strings.HasPrefix(err, "lz4:") {
 		return "p2p-compressed-frame-rejected:lz4-decoder"
 	}
+	if clause == "canon" {
+		return "canon:" + sn(c) + ":redecode-error"
+	}
 	return clause + ":" + sn(c) + ":decode-error"
 }
+
+func redecodeSuffix(error) string { return "" }
 
 // guard runs f and converts a panic into a violation.
 func guard(c *codec, stage string, input []byte, f func()) (v *viol) {
@@ -85,6 +110,9 @@ func checkAccepted(c *codec, input []byte, v any, canon bool) []viol {
 	if p := guard(c, "re-encoding", input, func() { e1, err = c.enc(v) }); p != nil {
 		return append(out, *p)
 	}
+	if err != nil && c.idempotentOnly {
+		return out // lossy by specification: not every decodable value has this form
+	}
 	if err != nil {
 		return append(out, mkViol("canon:"+sn(c)+":reencode-error", fmt.Sprintf("%s accepted the input but the value does not re-encode: %v", c.entry, err), c, input, nil))
 	}
@@ -93,7 +121,7 @@ func checkAccepted(c *codec, input []byte, v any, canon bool) []viol {
 		return append(out, *p)
 	}
 	if err != nil {
-		return append(out, mkViol("canon:"+sn(c)+":redecode-error", fmt.Sprintf("the re-encoding of an accepted value is rejected: %v", err), c, input, map[string]any{"reencoded_hex": hexCap(e1)}))
+		return append(out, mkViol(decodeErrSig(c, "canon", err.Error())+redecodeSuffix(err), fmt.Sprintf("the re-encoding of an accepted value is rejected: %v", err), c, input, map[string]any{"reencoded_hex": hexCap(e1)}))
 	}
 	if !c.idempotentOnly {
 		if d := c.diff(v, v2); d != "" {
@@ -102,17 +130,17 @@ func checkAccepted(c *codec, input []byte, v any, canon bool) []viol {
 	}
 	id2 := c.ident(v2)
 	if id1 != id2 {
-		return append(out, mkViol(identSig(c), fmt.Sprintf("the value decoded from the received bytes reports hash=%s size=%d txs=%s, the same content decoded from its own encoding reports hash=%s size=%d txs=%s (received %d bytes, canonical %d bytes)",
+		return append(out, mkViol(identityViolSig(c.typ, c.entry, input, id1, id2), fmt.Sprintf("the value decoded from the received bytes reports hash=%s size=%d txs=%s, the same content decoded from its own encoding reports hash=%s size=%d txs=%s (received %d bytes, canonical %d bytes)",
 			id1.hash, id1.size, id1.subhash, id2.hash, id2.size, id2.subhash, len(input), len(e1)), c, input, map[string]any{"reencoded_hex": hexCap(e1)}))
 	}
 	var e2 []byte
 	if p := guard(c, "second re-encoding", e1, func() { e2, err = c.enc(v2) }); p != nil {
 		return append(out, *p)
 	}
-	if err != nil || !bytes.Equal(e1, e2) {
+	if err != nil || !bytes.Equal(c.normalise(e1), c.normalise(e2)) {
 		return append(out, mkViol("canon:"+sn(c)+":encoding-not-fixpoint", fmt.Sprintf("encode(decode(encode(v))) != encode(v) (err=%v)", err), c, input, map[string]any{"reencoded_hex": hexCap(e1), "second_hex": hexCap(e2)}))
 	}
-	if canon && !bytes.Equal(e1, input) {
+	if canon && !bytes.Equal(c.normalise(e1), c.normalise(input)) {
 		return append(out, mkViol("roundtrip:"+sn(c)+":reencoding", "encode(decode(encode(v))) != encode(v)", c, input, map[string]any{"second_hex": hexCap(e1)}))
 	}
 	if c.post != nil {
@@ -169,13 +197,6 @@ func wireLen(c *codec, v any) int {
 		w := io.NewBufBinWriter()
 		x.n.EncodeBinary(w.BinWriter)
 		return len(w.Bytes())
-	case *msgBox:
-		switch p := x.m.Payload.(type) {
-		case *transaction.Transaction:
-			return len(encode(p))
-		case *block.Block:
-			return len(encode(p))
-		}
 	}
 	return -1
 }
@@ -213,12 +234,18 @@ func checkGenerated(c *codec, stream uint64) (out []viol, shape string, enc []by
 	if id0.hash != id2.hash || id0.subhash != id2.subhash {
 		out = append(out, mkViol("roundtrip:"+sn(c)+":hash", fmt.Sprintf("hash %s (constructed) vs %s (decoded); txs %s vs %s", id0.hash, id2.hash, id0.subhash, id2.subhash), c, b, map[string]any{"shape": shape}))
 	}
+	sizeSig := "size:" + c.typ
+	if bytes.Contains(b, []byte{0xfe, 0xff, 0xff, 0x00, 0x00}) {
+		// the encoding holds the 5-byte form of 65535: the disagreement of
+		// WriteVarUint and io.GetVarSize at that boundary, seen from here
+		sizeSig = primSig
+	}
 	if wl := wireLen(c, v2); wl >= 0 {
 		if id2.size != wl {
-			out = append(out, mkViol("size:"+c.typ, fmt.Sprintf("decoded value reports size %d, its binary encoding has %d bytes", id2.size, wl), c, b, map[string]any{"shape": shape}))
+			out = append(out, mkViol(sizeSig, fmt.Sprintf("decoded value reports size %d, its binary encoding has %d bytes", id2.size, wl), c, b, map[string]any{"shape": shape}))
 		}
 		if id0.size != wl {
-			out = append(out, mkViol("size:"+c.typ, fmt.Sprintf("constructed value reports size %d, its binary encoding has %d bytes", id0.size, wl), c, b, map[string]any{"shape": shape}))
+			out = append(out, mkViol(sizeSig, fmt.Sprintf("constructed value reports size %d, its binary encoding has %d bytes", id0.size, wl), c, b, map[string]any{"shape": shape}))
 		}
 	}
 	if len(out) == 0 {
@@ -480,7 +507,7 @@ func checkPaths(c *codec, b []byte) []viol {
 		if p.Err == "" && p.Hash == ref.Hash && p.Size == ref.Size && p.Sub == ref.Sub {
 			continue
 		}
-		sig := "identity-not-from-content:" + typ + ":" + p.Path
+		sig := identityViolSig(typ, p.Path, b, identity{hash: p.Hash, size: p.Size, subhash: p.Sub}, identity{hash: ref.Hash, size: ref.Size, subhash: ref.Sub})
 		detail := fmt.Sprintf("same %s bytes: %s gives hash=%s size=%d %s, %s gives hash=%s size=%d %s", typ, ref.Path, ref.Hash, ref.Size, ref.Sub, p.Path, p.Hash, p.Size, p.Sub)
 		if strings.HasPrefix(p.Err, "lz4:") {
 			sig = "p2p-compressed-frame-rejected:lz4-decoder"
@@ -577,4 +604,102 @@ func checkPrimitives() (out []viol, cases int) {
 		}
 	}
 	return out, cases
+}
+
+// normalise maps an encoding to the form in which encodings are compared.
+func (c *codec) normalise(b []byte) []byte {
+	if c.norm != nil {
+		return c.norm(b)
+	}
+	return b
+}
+
+// lz4Reference is a block decoder written from the LZ4 block format
+// description; it shares nothing with the library under the node.
+func lz4Reference(src []byte, n int) ([]byte, bool) {
+	out := make([]byte, 0, n)
+	i := 0
+	for i < len(src) {
+		tok := src[i]
+		i++
+		ll := int(tok >> 4)
+		if ll == 15 {
+			for {
+				if i >= len(src) {
+					return nil, false
+				}
+				x := src[i]
+				i++
+				ll += int(x)
+				if x != 255 {
+					break
+				}
+			}
+		}
+		if i+ll > len(src) || len(out)+ll > n {
+			return nil, false
+		}
+		out = append(out, src[i:i+ll]...)
+		i += ll
+		if i >= len(src) {
+			break
+		}
+		if i+2 > len(src) {
+			return nil, false
+		}
+		off := int(src[i]) | int(src[i+1])<<8
+		i += 2
+		if off == 0 || off > len(out) {
+			return nil, false
+		}
+		ml := int(tok & 15)
+		if ml == 15 {
+			for {
+				if i >= len(src) {
+					return nil, false
+				}
+				x := src[i]
+				i++
+				ml += int(x)
+				if x != 255 {
+					break
+				}
+			}
+		}
+		ml += 4
+		if len(out)+ml > n {
+			return nil, false
+		}
+		for k := 0; k < ml; k++ {
+			out = append(out, out[len(out)-off])
+		}
+	}
+	return out, len(out) == n
+}
+
+// plainFrame rewrites a compressed P2P frame as the equivalent uncompressed
+// one (the compressor's output is not a function of its input alone: it
+// reuses pooled match tables), leaving any other input untouched.
+func plainFrame(b []byte) []byte {
+	if len(b) < 3 || b[0]&byte(network.Compressed) == 0 {
+		return b
+	}
+	r := io.NewBinReaderFromBuf(b[2:])
+	p := r.ReadVarBytes(0x02000000 + 16)
+	if r.Err != nil || r.Len() != 0 || len(p) < 4 {
+		return b
+	}
+	n := int(binary.LittleEndian.Uint32(p[:4]))
+	if n > 0x02000000 {
+		return b
+	}
+	raw, ok := lz4Reference(p[4:], n)
+	if !ok {
+		return b
+	}
+	var w wbuf
+	w.b(b[0] &^ byte(network.Compressed))
+	w.b(b[1])
+	w.varbytes(raw)
+	return w.Bytes()
 }
